@@ -719,3 +719,165 @@ pub fn replay(j: &serde_json::Value) -> i32 {
     }
     i32::from(!violations.is_empty())
 }
+
+// ------------------------------------------------- C10: errors of macro steps
+
+/// One line per event that matters for C10.
+#[derive(Clone, Debug, Default)]
+pub struct ZRec(pub Vec<String>);
+
+impl cucumber::Writer<ZooA> for ZRec {
+    type Cli = cucumber::cli::Empty;
+    async fn handle_event(
+        &mut self,
+        ev: cucumber::parser::Result<cucumber::Event<cucumber::event::Cucumber<ZooA>>>,
+        _: &Self::Cli,
+    ) {
+        use cucumber::event::{Cucumber as C, Feature as F, Hook, Rule as R, Scenario as S, Step as St};
+        let Ok(ev) = ev else {
+            self.0.push("parse-error".into());
+            return;
+        };
+        let line = |sc: &gherkin::Scenario, ev: &S<ZooA>| -> Option<String> {
+            let n = &sc.name;
+            Some(match ev {
+                S::Started => format!("{n}: started"),
+                S::Finished => format!("{n}: finished"),
+                S::Step(st, St::Started) | S::Background(st, St::Started) => format!("{n}: {} started", st.value),
+                S::Step(st, St::Passed(..)) | S::Background(st, St::Passed(..)) => format!("{n}: {} passed", st.value),
+                S::Step(st, St::Skipped) | S::Background(st, St::Skipped) => format!("{n}: {} skipped", st.value),
+                S::Step(st, St::Failed(_, _, _, e)) | S::Background(st, St::Failed(_, _, _, e)) => {
+                    format!("{n}: {} failed {}", st.value, crate::canon::step_error(e))
+                }
+                S::Hook(ty, Hook::Started) => format!("{n}: hook {ty:?} started"),
+                S::Hook(ty, Hook::Passed) => format!("{n}: hook {ty:?} passed"),
+                S::Hook(ty, Hook::Failed(..)) => format!("{n}: hook {ty:?} failed"),
+                S::Log(_) => return None,
+            })
+        };
+        match ev.value {
+            C::Finished => self.0.push("run finished".into()),
+            C::Feature(_, F::Scenario(sc, ev)) | C::Feature(_, F::Rule(_, R::Scenario(sc, ev))) => {
+                if let Some(l) = line(&sc, &ev.event) {
+                    self.0.push(l);
+                }
+            }
+            _ => {}
+        }
+    }
+}
+
+impl cucumber::writer::Normalized for ZRec {}
+
+thread_local! {
+    static AFTER_REASONS: RefCell<Vec<String>> = const { RefCell::new(Vec::new()) };
+}
+
+struct ZParser(Vec<gherkin::Feature>);
+
+impl cucumber::Parser<()> for ZParser {
+    type Cli = cucumber::cli::Empty;
+    type Output = futures::stream::LocalBoxStream<'static, cucumber::parser::Result<gherkin::Feature>>;
+    fn parse(self, (): (), _: cucumber::cli::Empty) -> Self::Output {
+        use futures::StreamExt as _;
+        futures::stream::iter(self.0.into_iter().map(Ok)).boxed_local()
+    }
+}
+
+/// C10, "an error in a step": every way a macro-registered step can report an
+/// error (returned `Err` behind several spellings of the return type, sync and
+/// async, a capture that does not parse) through the real runner: the step must
+/// become Failed with the payload, later steps must not run, the after hook runs
+/// once with the failure as its reason, the attempt and the run still finish and
+/// the neighbouring scenario is unaffected.
+pub fn c10_macro_errors() -> Vec<(String, String)> {
+    use cucumber::event::ScenarioFinished as Fin;
+    const CASES: [(&str, &str, &str); 6] = [
+        ("result", "Then result err", "returned err"),
+        ("alias", "Then alias err", "aliased err"),
+        ("io", "Then io err", "io err"),
+        ("async-result", "Then async result err", "my error x"),
+        ("parse", "Given parse 300", ""),
+        ("slice-parse", "When regex 99999999999 and w", ""),
+    ];
+    let mut text = String::from("Feature: Z\n");
+    for (name, step, _) in CASES {
+        text += &format!("  Scenario: {name}\n    {step}\n    Then result ok\n");
+    }
+    text += "  Scenario: fine\n    Then result ok\n    Then alias ok\n";
+    let feat = gherkin::Feature::parse(&text, gherkin::GherkinEnv::default()).expect("zoo feature");
+    AFTER_REASONS.with(|r| r.borrow_mut().clear());
+    let runner = cucumber::runner::Basic::<ZooA>::default()
+        .max_concurrent_scenarios(Some(1))
+        .steps(ZooA::collection())
+        .after(|_, _, sc, fin, _| {
+            let r = match fin {
+                Fin::StepFailed(..) => "StepFailed",
+                Fin::StepPassed => "StepPassed",
+                Fin::StepSkipped => "StepSkipped",
+                Fin::BeforeHookFailed(_) => "BeforeHookFailed",
+            };
+            AFTER_REASONS.with(|v| v.borrow_mut().push(format!("{}: {r}", sc.name)));
+            futures::future::ready(()).boxed_local()
+        });
+    let prev = std::panic::take_hook();
+    std::panic::set_hook(Box::new(|_| {}));
+    let run = std::panic::catch_unwind(AssertUnwindSafe(|| {
+        futures::executor::block_on(
+            cucumber::Cucumber::<ZooA, _, (), _, _, cucumber::cli::Empty>::custom(ZParser(vec![feat]), runner, ZRec::default())
+                .with_cli(cucumber::cli::Opts::<cucumber::cli::Empty, cucumber::runner::basic::Cli, cucumber::cli::Empty, cucumber::cli::Empty> {
+                    re_filter: None,
+                    tags_filter: None,
+                    parser: cucumber::cli::Empty,
+                    runner: cucumber::runner::basic::Cli::default(),
+                    writer: cucumber::cli::Empty,
+                    custom: cucumber::cli::Empty,
+                })
+                .run(()),
+        )
+    }));
+    std::panic::set_hook(prev);
+    let mut out = Vec::new();
+    let lines = match run {
+        Ok(w) => w.0,
+        Err(_) => {
+            out.push(("escaped".into(), "an error returned by a macro step escaped from the run as a panic".into()));
+            return out;
+        }
+    };
+    let reasons = AFTER_REASONS.with(|r| r.borrow().clone());
+    for (name, step, payload) in CASES {
+        let text = step.split_once(' ').unwrap().1;
+        let mine: Vec<&String> = lines.iter().filter(|l| l.starts_with(&format!("{name}: "))).collect();
+        let failed = mine.iter().find(|l| l.starts_with(&format!("{name}: {text} failed")));
+        match failed {
+            None => out.push((
+                "error-lost".into(),
+                format!("macro step `{step}` reported an error but no Failed event was emitted for it; events of the scenario: {mine:?}"),
+            )),
+            Some(l) if !l.contains(payload) || !l.contains("Panic(") => out.push((
+                "payload-lost".into(),
+                format!("macro step `{step}`: the Failed event does not carry the error {payload:?}: {l}"),
+            )),
+            Some(_) => {}
+        }
+        if mine.iter().any(|l| l.contains("result ok")) {
+            out.push(("step-after-failure".into(), format!("scenario {name}: a step ran after the failed one: {mine:?}")));
+        }
+        if mine.last().map(|l| l.as_str()) != Some(&format!("{name}: finished")) {
+            out.push(("unfinished".into(), format!("scenario {name} has no Finished event at its end: {mine:?}")));
+        }
+        let rs: Vec<&String> = reasons.iter().filter(|r| r.starts_with(&format!("{name}: "))).collect();
+        if rs.len() != 1 || !rs[0].ends_with("StepFailed") {
+            out.push(("after-hook".into(), format!("scenario {name}: after hook calls {rs:?}, expected exactly one with reason StepFailed")));
+        }
+    }
+    let fine: Vec<&String> = lines.iter().filter(|l| l.starts_with("fine: ")).collect();
+    if fine.iter().filter(|l| l.ends_with(" passed") && !l.contains(": hook ")).count() != 2 || fine.iter().any(|l| l.contains("failed")) {
+        out.push(("other-scenario-affected".into(), format!("the scenario without errors did not pass both steps: {fine:?}")));
+    }
+    if lines.last().map(String::as_str) != Some("run finished") {
+        out.push(("run-unfinished".into(), format!("the run did not end with run-Finished: last event {:?}", lines.last())));
+    }
+    out
+}
